@@ -131,25 +131,27 @@ func (c *Ctx) hijackHandlerShape(h *ssa.Function) {
 			}
 			// return false, <nil or unknown error>: must be under handled==true or empty factor
 			fs := FactsAtInstr(ret)
-			okGuard := HasFact(fs, func(f Fact) bool { return f.SaysBool(handledParam, true) })
-			if !okGuard {
-				okGuard = HasFact(fs, func(f Fact) bool {
-					rel := f.Rel()
-					x := StrLenValue(rel.X)
-					if x == nil {
-						x = rel.X
-					}
-					if !(f.SaysEmpty(x)) {
-						return false
-					}
-					// x is a Get* accessor of the context user
-					call, _ := CallOf(x)
-					if call == nil || !call.Common().IsInvoke() || !strings.HasPrefix(call.Common().Method.Name(), "Get") {
-						return false
-					}
-					return c.isUserType(call.Common().Value.Type())
-				})
+			guard := func(f Fact) bool {
+				if f.SaysBool(handledParam, true) {
+					return true
+				}
+				rel := f.Rel()
+				x := StrLenValue(rel.X)
+				if x == nil {
+					x = rel.X
+				}
+				if !(f.SaysEmpty(x)) {
+					return false
+				}
+				// x is a Get* accessor of the context user
+				call, _ := CallOf(x)
+				if call == nil || !call.Common().IsInvoke() || !strings.HasPrefix(call.Common().Method.Name(), "Get") {
+					return false
+				}
+				return c.isUserType(call.Common().Value.Type())
 			}
+			// established at the return, or on every branch that reaches a shared return
+			okGuard := HasFact(fs, guard) || HoldsEntering(ret.Block(), guard, 0)
 			if okGuard {
 				r.Ok("C02.hijack-exit", name, "return false", pos, "declines only when already handled or the user's factor field is empty")
 			} else {
